@@ -260,7 +260,10 @@ def one_document(ctx, name, cls, seedstr, classes, every_position):
         ctx.distinct((name, seedstr, kind, tuple(path), pos))
     # one extreme insertion per document: an undefined aggregate nested far deeper than any interpreter stack (tree route only:
     # the harness' own renderer is recursive)
-    if slots:
+    import sys as _sys
+    if slots and _sys.modules.get("_elementtree", True) is None:
+        ctx.count("unspecified_deep_subtree_without_c_accelerator")  # pure-Python ElementTree: copy.deepcopy itself cannot go that deep
+    elif slots:
         path, pe, pcls, pos = rng.choice(slots)
         deep = ET.Element("ZZDEEP")
         cur = deep
